@@ -113,7 +113,7 @@ def expected(w: dict, ws_key="ws") -> dict:
 
 
 def lockstep(w: dict, q: int, t: int, exp: dict, exp2: dict) -> bool:
-    """Signature of the recorded finding: two workers serve queue q with different topic filters and the unexecuted job's
+    """Signature of a defect repaired by 4c9afb3 (listed under `fixed`, so it is a VIOLATION if it ever returns): two workers serve queue q with different topic filters and the unexecuted job's
     topic is wanted by exactly one of them.  The two consumers poll in lock-step, each looking at the head of the waiting list
     only; the message keeps arriving at the head when it is the other consumer's turn (which rotates it to the back)."""
     f1 = {n for n, (qq, _) in exp.items() if qq == q}
